@@ -329,8 +329,22 @@ impl<'a> World<'a> {
                 base
             }
             _ => {
-                let n = r.usize_below(60);
+                // mostly short; sometimes at the datagram limit, at the size of the scratch buffer handed to
+                // feed(), or far beyond; sometimes a repeated byte behind a compression flag (unpacks to more
+                // than any buffer holds)
+                let n = match r.below(12) {
+                    0 => 1380 + r.usize_below(40),
+                    1 => 2030 + r.usize_below(40),
+                    2 => *r.pick(&[5000usize, 70000]),
+                    _ => r.usize_below(60),
+                };
                 let mut d = r.bytes(n);
+                if n > 1000 && r.chance(1, 2) {
+                    let fillb = *r.pick(&[0u8, 0xff, 0x55]);
+                    let z = HUFFMAN.compress_into_vec(&vec![fillb; n]);
+                    d = if v7 { vec![0x10, 0, 0, wrong[0], wrong[1], wrong[2], wrong[3]] } else { vec![0x80, 0, 0] };
+                    d.extend_from_slice(&z);
+                }
                 if !d.is_empty() {
                     // connected (not connectionless) header
                     d[0] &= !0x20;
@@ -522,8 +536,19 @@ impl<'a> World<'a> {
                 base
             }
             4 => {
-                let n = r.usize_below(80);
-                let body = r.bytes(n);
+                // mostly short; sometimes around the datagram limit, around the 2048-byte scratch buffer the
+                // application hands to feed(), or far beyond both; sometimes one repeated byte (compresses to
+                // almost nothing: a small datagram that unpacks to more than any buffer holds)
+                let n = match r.below(10) {
+                    0 => 1380 + r.usize_below(40),
+                    1 => 2030 + r.usize_below(40),
+                    2 => *r.pick(&[5000usize, 20000, 70000]),
+                    _ => r.usize_below(80),
+                };
+                let body = if r.chance(1, 3) { vec![*r.pick(&[0u8, 0xff, b'a', 0x80]); n] } else { r.bytes(n) };
+                if n > 1000 {
+                    ctx.count("probe_forge_oversize");
+                }
                 let flags = r.below(16) as u8;
                 let ack = r.below(1024) as u16;
                 if v7 {
